@@ -261,6 +261,139 @@ fn judge_cascade(body: &[String], label_pos: usize, args: (&'static str, &'stati
     }
 }
 
+// ---- typed forward references across macro calls ---------------------------------------------------------
+// A macro call has no size before it resolves, so a label behind it is first under-estimated; a narrow typed
+// parameter that reads that label is in range early and out of range in the end (or the reverse). The macro
+// program must behave like the inlined one: rejected when the final value does not fit (no fallback rule), or a
+// self-consistent choice between the narrow and the wide form (fallback rule present).
+
+const TA_ITEMS: [&str; 5] = ["ldn T", "far", "nop", "ldw T", "farp T"];
+
+fn ta_source(seq: &[usize], label_at: usize, fallback: bool) -> (String, Prog) {
+    let mut rules = vec![RuleSrc::new("nop", "0x00"), RuleSrc::new("ldn {x: u2}", "0b101010 @ x")];
+    if fallback {
+        rules.push(RuleSrc::new("ldn {x: u8}", "0xb0 @ x"));
+    }
+    rules.push(RuleSrc::new("ldw {x: u16}", "0x20 @ x"));
+    let mut s = String::from("#ruledef\n{\n");
+    for r in &rules {
+        s += &format!("    {} => {}\n", r.pattern, r.prod);
+    }
+    s += "    far => asm {\n        nop\n        nop\n        nop\n    }\n    farp {p} => asm {\n        ldw {p}\n        nop\n    }\n}\n";
+    let mut items = vec![];
+    for (i, x) in seq.iter().enumerate() {
+        if i == label_at {
+            s += "T:\n";
+            items.push(Item::Label("T".into()));
+        }
+        let it = TA_ITEMS[*x];
+        s += it;
+        s += "\n";
+        match it {
+            "far" => {
+                for _ in 0..3 {
+                    items.push(Item::Instr("nop".into()));
+                }
+            }
+            "farp T" => {
+                items.push(Item::Instr("ldw T".into()));
+                items.push(Item::Instr("nop".into()));
+            }
+            _ => items.push(Item::Instr(it.into())),
+        }
+    }
+    if label_at >= seq.len() {
+        s += "T:\n";
+        items.push(Item::Label("T".into()));
+    }
+    s += "#d8 0xff\n";
+    items.push(Item::Data(Some(8), vec!["0xff".into()]));
+    (s, Prog { ruledefs: vec![RuleDefSrc { name: None, sub: false, rules }], items })
+}
+
+fn judge_typed_across(seq: &[usize], label_at: usize, fallback: bool, budget: usize, l: &mut Local) {
+    let (msrc, inl) = ta_source(seq, label_at, fallback);
+    let isrc = inl.render();
+    l.eval();
+    let mo = run::assemble_str(&msrc, &Opts::iters(budget));
+    l.nontrivial(&(&msrc, budget));
+    let viol = |l: &mut Local, key: &str, what: &str, expected: String| {
+        l.violation(Violation {
+            property: ID,
+            key: key.into(),
+            what: format!("{} [iters={}]: {}", what, budget, msrc.replace('\n', " / ")),
+            case: json!({"family": "typed-across-macro", "program": msrc, "inlined": isrc, "budget": budget, "expected": expected, "observed": mo.summary()}),
+        });
+    };
+    if mo.panicked.is_some() {
+        viol(l, "C17:panic", "panic in the macro program", String::new());
+        return;
+    }
+    if !mo.success() && !mo.failure() {
+        viol(l, "C17:unclean-outcome", "neither clean success nor clean failure", String::new());
+        return;
+    }
+    if !fallback {
+        // size-static inlined program: one layout, decided by the reference and by the subject itself
+        l.eval();
+        let io = run::assemble_str(&isrc, &Opts::iters(budget));
+        let r = assemble(&inl);
+        if c01::disagreement(&io, &r).is_some() {
+            l.count("inlined_program_disagrees_with_reference_left_to_C01", 1);
+            return;
+        }
+        l.traces_validated += 1;
+        l.class(if io.success() { "typed-across-inlined-ok" } else { "typed-across-inlined-rejected" });
+        if io.failure() && mo.ok {
+            viol(l, "C17:macro-assembles-but-inlined-rejected", "the program with macro calls assembles although the inlined program is rejected", io.summary().to_string());
+        } else if io.success() && mo.success() && mo.bits != io.bits {
+            viol(l, "C17:macro-bits-differ-from-inlined", "the program with macro calls assembles to other bits than the inlined one", io.summary().to_string());
+        } else if io.success() && mo.failure() && budget >= 10 {
+            viol(l, "C17:macro-rejected-but-inlined-assembles", "the inlined program assembles but the program with macro calls is rejected", io.summary().to_string());
+        }
+        return;
+    }
+    // fallback rule present: `ldn T` is 8 or 16 bits depending on T; a success must be a consistent solution
+    if !mo.success() {
+        l.class("typed-across-fallback-not-converged-or-rejected");
+        return;
+    }
+    l.class("typed-across-fallback-ok");
+    let instrs: Vec<&String> = inl.items.iter().filter_map(|i| if let Item::Instr(s) = i { Some(s) } else { None }).collect();
+    let fixed = |s: &str| -> Option<usize> {
+        match s {
+            "nop" => Some(8),
+            "ldw T" => Some(24),
+            _ => None,
+        }
+    };
+    let free: Vec<usize> = instrs.iter().enumerate().filter(|(_, s)| fixed(s).is_none()).map(|(i, _)| i).collect();
+    let mut certified = false;
+    for mask in 0u32..(1 << free.len()) {
+        let mut sizes: Vec<usize> = instrs.iter().map(|s| fixed(s).unwrap_or(8)).collect();
+        for (k, fi) in free.iter().enumerate() {
+            sizes[*fi] = if mask & (1 << k) != 0 { 16 } else { 8 };
+        }
+        match assemble_with(&inl, Some(&sizes)) {
+            RefOut::Ok(ok) => {
+                if ok.bits == mo.bits {
+                    certified = true;
+                    break;
+                }
+            }
+            RefOut::Unspec(_) => {
+                l.unspecified += 1;
+                return;
+            }
+            RefOut::Error(_) => {}
+        }
+    }
+    l.traces_validated += 1;
+    if !certified {
+        viol(l, "C17:macro-result-is-not-a-consistent-solution-of-the-inlined-program", "no self-consistent choice of narrow/wide forms in the inlined program reproduces the bits of the program with macro calls", String::new());
+    }
+}
+
 // ---- functions --------------------------------------------------------------------------------------
 
 fn fn_trees() -> Vec<E> {
@@ -462,7 +595,7 @@ fn judge_recursion(l: &mut Local) {
 pub fn run(ctx: &Ctx) -> Report {
     let mut rep = Report::new(
         "exploration",
-        "macro rules `m0 {p}, {q} => asm { i1 / i2 [/ i3] }` over every pair (thorough: every triple from a 16-form subset) of inner instruction forms (6 base rules x operand in {argument p, argument q, literal, block-local label, backward global, forward global, $}) x every position of the local label x untyped/typed parameters x 4 argument pairs x 3 prefixes x 2 suffixes x nesting depth 0..2, each compared with the hand-inlined program (bits identical; the inlined program is size-static and itself checked against the reference assembler); user functions: every depth<=1 tree (and selected depth-2 trees) over parameters a, b as `#fn f(a,b)` x 5 argument pairs compared with the substituted expression and the reference evaluator; recursion depth 1..40 and unbounded recursion. Non-trivial = every generated program; distinct by text.",
+        "macro rules `m0 {p}, {q} => asm { i1 / i2 [/ i3] }` over every pair (thorough: every triple from a 16-form subset) of inner instruction forms (6 base rules x operand in {argument p, argument q, literal, block-local label, backward global, forward global, $}) x every position of the local label x untyped/typed parameters x 4 argument pairs x 3 prefixes x 2 suffixes x nesting depth 0..2, each compared with the hand-inlined program (bits identical; the inlined program is size-static and itself checked against the reference assembler); programs of <= 4 (thorough 6) items over {narrow typed forward reference `ldn T` (u2, with and without a u8 fallback rule), parameterless and parameterised macro calls, nop, ldw T} x every position of `T:` x budgets 3/10/30 against the inlined program (rejected alike / identical bits without the fallback; a self-consistent narrow/wide choice with it); user functions: every depth<=1 tree (and selected depth-2 trees) over parameters a, b as `#fn f(a,b)` x 5 argument pairs compared with the substituted expression and the reference evaluator; recursion depth 1..40 and unbounded recursion. Non-trivial = every generated program; distinct by text.",
     );
     let forms = inner_forms();
     let nf = forms.len() as u64;
@@ -519,6 +652,19 @@ pub fn run(ctx: &Ctx) -> Report {
         }
         judge_cascade(&body, d[1] as usize, ARGS[d[2] as usize], PREFIXES[d[3] as usize], budgets[d[4] as usize], l);
     }));
+    // typed forward references across macro calls
+    let ta_len: u32 = if ctx.thorough { 6 } else { 4 };
+    let nta = seq_count(TA_ITEMS.len() as u64, ta_len);
+    let ta_budgets = [3usize, 10, 30];
+    let radices_t = [nta, ta_len as u64 + 1, 2, ta_budgets.len() as u64];
+    rep.absorb(par_run(product(&radices_t), |i, l| {
+        let d = decode(i, &radices_t);
+        let seq = seq_decode(d[0], TA_ITEMS.len() as u64, ta_len);
+        if seq.is_empty() || d[1] as usize > seq.len() || !seq.iter().any(|x| TA_ITEMS[*x].starts_with("far")) {
+            return;
+        }
+        judge_typed_across(&seq, d[1] as usize, d[2] == 1, ta_budgets[d[3] as usize], l);
+    }));
     // functions
     let trees = fn_trees();
     let nt = trees.len() as u64;
@@ -534,7 +680,7 @@ pub fn run(ctx: &Ctx) -> Report {
     rep.extra("inner_forms", json!(nf));
     rep.extra("function_trees", json!(nt));
     rep.assumptions = vec!["arguments are substituted textually into asm blocks (the repository's expr_asm tests pin this); typed parameters may additionally reject an out-of-range argument at the call site".into(), "outer programs use no dot-local labels, because an inlined block label would change their scope".into()];
-    for c in ["inlined-ok", "inlined-rejected", "macro-with-local-label-ok", "cascade-macro-ok", "function", "recursion-ok", "recursion-limit-error", "unbounded-recursion-error"] {
+    for c in ["inlined-ok", "inlined-rejected", "macro-with-local-label-ok", "cascade-macro-ok", "typed-across-inlined-ok", "typed-across-inlined-rejected", "typed-across-fallback-ok", "function", "recursion-ok", "recursion-limit-error", "unbounded-recursion-error"] {
         rep.require_class(c);
     }
     rep
